@@ -89,7 +89,15 @@ pub fn run(cx: &mut Ctx, args: &Args, rng: &mut Rng) -> i32 {
                 // constructors with extra arguments
                 match name {
                     "Threefish256" | "Threefish512" | "Threefish1024" => {
-                        for (tc, tweak) in mix(&mut r, 16, 3) {
+                        // tweak classes: generic mix plus the structure of the tweak schedule (t0, t1, t0 ^ t1):
+                        // one word zero, equal halves, a single bit
+                        let mut tweaks = mix(&mut r, 16, 3);
+                        let w = r.bytes(8);
+                        tweaks.push(("tweak-lo-only".into(), [w.clone(), vec![0u8; 8]].concat()));
+                        tweaks.push(("tweak-hi-only".into(), [vec![0u8; 8], w.clone()].concat()));
+                        tweaks.push(("tweak-equal-halves".into(), [w.clone(), w.clone()].concat()));
+                        tweaks.push(("tweak-bit".into(), crate::rng::bit_walk(16, r.below(128))));
+                        for (tc, tweak) in tweaks {
                             for via in ["tweak", "tweak_u64"] {
                                 if let Some((id, inst)) = cx.construct_extra(ti, via, &key, &tweak, &tc) {
                                     exercise(cx, id, inst.as_ref(), &blocks[..blocks.len().min(2)], &mut r, false);
@@ -110,9 +118,15 @@ pub fn run(cx: &mut Ctx, args: &Args, rng: &mut Rng) -> i32 {
                         }
                     }
                     "Rc2" => {
-                        let mut effs: Vec<u16> = vec![1, 7, 8, 9, 63, 64, 65, 128, 129, 1023, 1024, (8 * len) as u16];
+                        // effective key lengths: every residue mod 8 at the small and the large end (the mask TM and the
+                        // index 128 - T8 depend on T1 mod 8 and ceil(T1/8)), the classic values, 8*len, and random ones
+                        let mut effs: Vec<u16> = (1..=17).collect();
+                        effs.extend_from_slice(&[63, 64, 65, 127, 128, 129, 255, 256, 257, 511, 512, 513]);
+                        effs.extend(1015..=1024);
+                        effs.push((8 * len) as u16);
                         effs.push(1 + r.below(1024) as u16);
-                        let take = if all_lens { 3 } else { effs.len() };
+                        effs.push(1 + r.below(1024) as u16);
+                        let take = if all_lens { 4 } else { 12 };
                         let start = r.below(effs.len());
                         for j in 0..take {
                             let eff = effs[(start + j) % effs.len()];
